@@ -25,7 +25,7 @@ TITLE = "Cached overlaps are coherent with the walkers whenever a step reads the
 MENU = {"quick": 48, "thorough": 192}
 TIERS = {
     "quick": dict(runs=48 * 12, budget_s=170, recheck=2, shrink_s=60.0, run_timeout_s=900),
-    "thorough": dict(runs=192 * 150, budget_s=2400, recheck=6, shrink_s=180.0, run_timeout_s=1800),
+    "thorough": dict(runs=192 * 150, budget_s=1200, recheck=6, shrink_s=180.0, run_timeout_s=1800),
 }
 INCOH_TOL = 1.0e-8
 
@@ -58,8 +58,10 @@ def menu_entry(k):
     rng = random.Random(880000 + k)
     wt = rng.choice(["restricted", "unrestricted"])
     if wt == "restricted":
-        trial = rng.choice(["rhf", "rhf", "uhf"])
-        nelec = rng.choice([(2, 2), (1, 1)])
+        trial = rng.choice(["rhf", "rhf", "uhf", "uhf"])
+        # restricted walkers with an open-shell UHF trial are a documented layout
+        # (walker has max(n_up, n_dn) columns, the down determinant uses the first n_dn)
+        nelec = rng.choice([(2, 2), (1, 1)]) if trial == "rhf" else rng.choice([(2, 2), (2, 1), (3, 1), (3, 2)])
     else:
         trial = rng.choice(["uhf", "uhf", "noci"])
         nelec = rng.choice([(2, 1), (2, 2), (1, 1), (3, 1)])
@@ -116,6 +118,10 @@ def gen_cfg(seed, index, tier):
 
 def group_of(cfg):
     return f"m{cfg['menu']:03d}"
+
+
+def group_of_index(seed, index, tier):
+    return f"m{index % MENU[tier]:03d}"
 
 
 def spec_of(cfg):
